@@ -654,6 +654,14 @@ func (s *levelsController) subcompact(it y.Iterator, kr keyRange, cd compactDef,
 	// Check overlap of the top level with the levels which are not being
 	// compacted in this compaction.
 	hasOverlap := s.checkOverlap(cd.allTables(), cd.nextLevel.level+1)
+	if cd.thisLevel.level == 0 && cd.nextLevel.level == 0 {
+		// An L0->L0 compaction merges only some of the L0 tables (big, recently created and busy
+		// ones are left out), and L0 tables overlap each other. A table that was left out can hold an
+		// older version of a key whose delete marker is part of this compaction, so the marker must
+		// be kept here; otherwise the deleted key reappears. It is dropped later, when L0 is
+		// compacted into the base level.
+		hasOverlap = true
+	}
 
 	// Pick a discard ts, so we can discard versions below this ts. We should
 	// never discard any versions starting from above this timestamp, because
